@@ -773,3 +773,77 @@ def r01j(ctx):
             elif not missing:
                 ctx.ok(cid, c.module.loc(p.stmt), "all result-affecting parameters consulted")
     ctx.floor("rules that replace their own node", n, 5)
+
+
+# ---------------------------------------------------------------------------------------------
+# R01k
+# ---------------------------------------------------------------------------------------------
+
+
+def _heirs_lacking(model, K, a):
+    """subclasses of K that cannot answer `.a` / `.operand('a')`: the parameter is not theirs and the only provider is a property
+    that reads self.operand('a') (or nothing at all)"""
+    out = []
+    for h in model.subclasses(K):
+        try:
+            ps = model.parameters(h)
+        except Exception:  # noqa: BLE001
+            continue
+        pv = h.provider(a)
+        if a not in ps and (pv is None or (pv.kind != "attr" and f"operand({a!r})" in ast.unparse(pv.node))):
+            out.append(h.name)
+    return out
+
+
+@rule(
+    "R01k",
+    ["C01", "C13", "C11"],
+    """A PARAMETER READ AFTER isinstance(x, K) EXISTS IN EVERY SUBCLASS OF K: subclasses re-declare `_parameters` (RepartitionFreq has
+    [frame, freq], RepartitionDivisions [frame, new_divisions, force]). A rewrite rule that tests `isinstance(parent, Repartition)` and
+    then reads `parent.new_partitions` / `parent.operand('new_partitions')` raises ValueError("'new_partitions' is not in list") when the
+    parent is such a subclass - df.head(compute=False).repartition(freq='1D') failed in the optimizer. The read must be guarded by
+    `'<p>' in x._parameters` (or by an isinstance test for a class all of whose subclasses have the parameter).""",
+)
+def r01k(ctx):
+    model = ctx.model
+    n = 0
+    for c, mod, fn in _rewrite_functions(model):
+        fq = qual(c, fn) if c is not None else f"{mod.name.split('.', 1)[-1]}.{fn.name}"
+        for node in ast.walk(fn):
+            subj = attr = None
+            if isinstance(node, ast.Attribute) and isinstance(node.ctx, ast.Load) and dotted(node.value):
+                subj, attr = dotted(node.value), node.attr
+            elif isinstance(node, ast.Call) and isinstance(node.func, ast.Attribute) and node.func.attr == "operand" and dotted(node.func.value) and node.args and isinstance(node.args[0], ast.Constant):
+                subj, attr = dotted(node.func.value), node.args[0].value
+            if not subj or subj in ("self", "cls"):
+                continue
+            if isinstance(getattr(node, "_parent", None), ast.Attribute) and getattr(node, "_parent").attr == "operand":
+                continue
+            pt = flow.point_of(fn, node)
+            if pt is None:
+                continue
+            facts = list(flow.facts(pt)) + list(flow.expr_facts(node, pt.stmt))
+            guarded = any(pol and isinstance(t, ast.Compare) and isinstance(t.ops[0], ast.In) and isinstance(t.left, ast.Constant) and t.left.value == attr and ast.unparse(t.comparators[0]) == f"{subj}._parameters" for t, pol in facts)
+            for t, pol in facts:
+                if not (pol and isinstance(t, ast.Call) and isinstance(t.func, ast.Name) and t.func.id == "isinstance" and len(t.args) == 2 and ast.unparse(t.args[0]) == subj):
+                    continue
+                ks = t.args[1].elts if isinstance(t.args[1], ast.Tuple) else [t.args[1]]
+                for kn in ks:
+                    r = model.resolve_name(mod, ast.unparse(kn))
+                    K = r[1] if r and r[0] == "class" else (model.find_cls(ast.unparse(kn)) or [None])[0]
+                    if K is None or not model.is_expr(K):
+                        continue
+                    try:
+                        Kp = model.parameters(K)
+                    except Exception:  # noqa: BLE001
+                        continue
+                    if attr not in Kp:
+                        continue
+                    n += 1
+                    lack = _heirs_lacking(model, K, attr)
+                    cid = f"{fq}:reads:{subj}.{attr}:as:{K.name}"
+                    if not lack or guarded:
+                        ctx.ok(cid, mod.loc(node), "every subclass has the parameter" if not lack else f"guarded by '{attr}' in {subj}._parameters")
+                    else:
+                        ctx.bad(cid, mod.loc(node), f"`{unparse(node)}` is read after isinstance({subj}, {K.name}), but {lack} re-declare _parameters without `{attr}`: with such a {subj} the optimizer raises ValueError(\"'{attr}' is not in list\") on a query that computes fine un-optimized")
+    ctx.floor("parameter reads under isinstance tests", n, 40)
